@@ -94,6 +94,7 @@ func (c MutCfg) scalarVariants(fd protoreflect.FieldDescriptor, cur protoreflect
 		add("unknown", protoreflect.ValueOfString("nope"))
 		add("big", protoreflect.ValueOfString(strings.Repeat("a", c.Big/16)))
 		add("odd", protoreflect.ValueOfString("[::1/\x01 %zz"))
+		add("odd-host", protoreflect.ValueOfString("h%zz.example.org:4444")) // host:port syntax, not a host name
 		if strings.Contains(strings.ToLower(string(fd.Name())), "beaconid") {
 			for _, id := range c.IDs {
 				if id != cur.String() {
